@@ -101,6 +101,10 @@ Theorem C02_hex_hir_tame :
              /\ has_greedy (hir_of_tokens ts) = false.
 Proof. exact hex_hir_tame. Qed.
 
+(* the window of the theorems is the documented one (the constant is re-extracted from validator.rs on every run) *)
+Theorem C02_window_is_documented : MAX_SPLIT_MATCH_LENGTH = 4096.
+Proof. reflexivity. Qed.
+
 (* known findings are real; pinned-tree decompositions that were repaired were wrong *)
 Theorem C02_start_position_refuted :
   In 0 (starts_spec (flags_of md_hex) m_95 h_95)
@@ -150,6 +154,7 @@ Print Assumptions C02_flat_hex_exact.
 Print Assumptions C02_simple_fwd_correct.
 Print Assumptions C02_simple_rev_correct.
 Print Assumptions C02_hex_hir_tame.
+Print Assumptions C02_window_is_documented.
 Print Assumptions C02_start_position_refuted.
 Print Assumptions C02_alt_glue_refuted.
 Print Assumptions C02_alt_first_post_pinned_refuted.
